@@ -134,10 +134,15 @@ impl SwiftField for Field52B {
         // Check for location
         if current_idx < lines.len() {
             let loc = lines[current_idx];
-            if !loc.is_empty() && loc.len() <= 35 {
-                parse_swift_chars(loc, "Field 52B location")?;
-                location = Some(loc.to_string());
+            // The location line is 35x and the last line: it is not skipped when it is too long,
+            // and nothing may follow it
+            if loc.is_empty() || loc.len() > 35 || lines.len() > current_idx + 1 {
+                return Err(ParseError::InvalidFormat {
+                    message: "Field 52B location must be one line of 1-35 characters".to_string(),
+                });
             }
+            parse_swift_chars(loc, "Field 52B location")?;
+            location = Some(loc.to_string());
         }
 
         Ok(Field52B {
